@@ -2,8 +2,12 @@ package c09
 
 import (
 	"bytes"
+	"encoding/json"
 	"errors"
 	"fmt"
+	"os"
+	"path/filepath"
+	"sort"
 	"strings"
 	"testing"
 
@@ -560,9 +564,96 @@ func impRun(c impCase) *pbt.Fail {
 	if sig, d := rep.UnsoundBlame(); sig != "" {
 		return pbt.Failf("impersonation:"+sig, d)
 	}
-	// a proof or commitment made by one party must not verify for another: nobody who received the copy may complete
-	// as if it were the cheater's own valid message, unless the message carries nothing bound to its sender
+	// a proof or commitment made by one party must not verify for another: where the copied message carries something bound
+	// to its sender (catalogue/imp.json: the message kinds for which, on the repaired tree, the copy is rejected in the very
+	// round it belongs to, for every position of the cheater), some honest party must reject it THERE and name the cheater;
+	// a rejection that only happens later, through an unrelated check, means the binding is gone
+	if impCatalogue()[impKey(c)] {
+		ok := false
+		for _, id := range rep.Honest {
+			o := rep.Outcome[id]
+			if rep.BlamesExactly(id) && o.Err != nil && strings.Contains(o.Err.Error(), fmt.Sprintf("round %d:", c.Round)) {
+				ok = true
+			}
+		}
+		if !ok {
+			return pbt.Failf("impersonation:copy-not-rejected-in-its-round:"+c.Setup.Proto, fmt.Sprintf("%q re-sent an honest party's round-%d message (broadcast=%v) under its own name and no honest party rejected it in that round naming the sender: %s", rep.Cheater, c.Round, c.Bcast, rep.Summary()))
+		}
+	}
 	return nil
+}
+
+func impKey(c impCase) string { return fmt.Sprintf("%s|%d|%v", c.Setup.Proto, c.Round, c.Bcast) }
+
+var impCat map[string]bool
+
+func impCatalogue() map[string]bool {
+	if impCat == nil {
+		impCat = map[string]bool{}
+		b, err := os.ReadFile(filepath.Join(os.Getenv("VERIF_ROOT"), "catalogue", "imp.json"))
+		if err == nil {
+			var keys []string
+			if json.Unmarshal(b, &keys) == nil {
+				for _, k := range keys {
+					impCat[k] = true
+				}
+			}
+		}
+	}
+	return impCat
+}
+
+// TestGenImpCatalogue is a maintenance entry (not part of any tier): for every message kind it records whether, on the
+// current tree, the impersonated copy is rejected in its own round naming the cheater for EVERY cheater position (n=3,
+// in-order delivery).
+func TestGenImpCatalogue(t *testing.T) {
+	out := os.Getenv("VERIF_CATALOGUE_OUT")
+	if out == "" {
+		t.Skip("maintenance only")
+	}
+	rec := ev.Get()
+	res := map[string]bool{}
+	i := 0
+	protos := []string{proto.FrostKeygen, proto.FrostKeygenTap, proto.FrostRefresh, proto.FrostSign, proto.FrostSignTap, proto.CMPKeygen, proto.CMPSign, proto.CMPPresign}
+	for _, p := range protos {
+		for round := 2; round <= 7; round++ {
+			for _, bc := range []bool{true, false} {
+				i++
+				if !rec.Mine(i) {
+					continue
+				}
+				all, applied := true, false
+				for cheater := 0; cheater < 3; cheater++ {
+					c := impCase{Setup: advrun.Setup{Proto: p, N: 3, T: 2, Seed: 1}, Cheater: cheater, Round: round, Bcast: bc}
+					tm := adv.Tamper{Round: c.Round, Broadcast: c.Bcast, Kind: "substitute-other-sender"}
+					rep, err := advrun.Run(advrun.Case{Setup: c.Setup, Cheater: c.Cheater, Tamper: &tm})
+					if err != nil || rep.Applied == nil || rep.Applied.Count == 0 {
+						all = false
+						continue
+					}
+					applied = true
+					ok := false
+					for _, id := range rep.Honest {
+						o := rep.Outcome[id]
+						if rep.BlamesExactly(id) && o.Err != nil && strings.Contains(o.Err.Error(), fmt.Sprintf("round %d:", c.Round)) {
+							ok = true
+						}
+					}
+					all = all && ok
+				}
+				if applied && all {
+					res[fmt.Sprintf("%s|%d|%v", p, round, bc)] = true
+				}
+			}
+		}
+	}
+	var keys []string
+	for k := range res {
+		keys = append(keys, k)
+	}
+	sort.Strings(keys)
+	b, _ := json.MarshalIndent(keys, "", " ")
+	_ = os.WriteFile(fmt.Sprintf("%s.%d", out, rec.Shard), b, 0o644)
 }
 
 var impProp = pbt.Define(pbt.Prop[impCase]{Kind: "impersonated-replay", Run: impRun, Journal: true, Class: func(c impCase) (string, bool) {
